@@ -1,7 +1,7 @@
 """C17 — readers: every reader kind over scripted upstreams, drained with random destination sizes."""
 PID = "C17"
 EXTRA_TARGETS = ("BS.Properties.C17c",)
-CASE_LIMIT = {"C17": 15}   # seconds: these cases are function calls, not sessions
+CASE_LIMIT = {"C17": 90}   # seconds: these cases are function calls, not sessions
 RULE = ("for each reader kind (map, filter, flatmap, head, fold (int64, int and string keys), writer, scan, const, readerfunc, multi, exec multi, frame, "
         "taskbuf, readfull, scanner, vector scanner, ReadAll, closing, cogroup): random inputs (0..40 rows, keys 0..9), random upstream scripts "
         "(chunk limits incl. zero-row reads, EOF with or after the last rows, injected read errors) and random destination-"
